@@ -111,7 +111,19 @@ func (fs *FS) OpenReader(dir string, name string) (types.ReadableFile, error) {
 // about the well-formedness of the file, it may be empty, the wrong size or
 // corrupt in arbitrary ways.
 func (fs *FS) OpenWriter(dir string, name string) (types.WritableFile, error) {
-	return os.OpenFile(filepath.Join(dir, name), os.O_RDWR, os.FileMode(0644))
+	f, err := os.OpenFile(filepath.Join(dir, name), os.O_RDWR, os.FileMode(0644))
+	if err != nil {
+		return nil, err
+	}
+	// The file may have been created by a process that died before its first
+	// Sync, in which case its directory entry was never fsynced. Return the same
+	// wrapper as Create so the first Sync also fsyncs the parent dir.
+	fi := &File{
+		new:  0,
+		dir:  dir,
+		File: *f,
+	}
+	return fi, nil
 }
 
 func syncDir(dir string) error {
